@@ -182,6 +182,9 @@ def _do(storage, o):
         assert pg.storage.lock is storage.lock, "the property graph does not sit on the instrumented store"
         pg.delete_node(node_id=o["label"])
         return []
+    if op == "get_graph":
+        storage.get_graph(o["g"])
+        return []
     if op == "extract":
         g = storage.extract_graph(o["g"])
         return [] if g is None else sorted(str(d.get("NodeID")) for _, d in g.nodes(data=True))
@@ -219,6 +222,11 @@ def execute(backend, scripts, decisions):
     def tracer(frame, event, arg):
         fn = frame.f_code.co_filename
         if not fn.endswith(STORE_FILES):
+            # a call from store code into other Python code (networkx, a default factory building a graph object ...):
+            # one yield point on entry, nothing inside is traced
+            if event == "call" and frame.f_back is not None and frame.f_back.f_code.co_filename.endswith(STORE_FILES) \
+                    and getattr(s.tls, "tid", None) is not None:
+                s.yield_point(s.tls.tid)
             return None
 
         def local(frame, event, arg):
@@ -241,7 +249,7 @@ def execute(backend, scripts, decisions):
                     raise
                 except Exception as e:  # noqa
                     res, out = [], type(e).__name__
-                r = s.log(tid, "ret", op=i, out=out, free=(o["op"] == "del_node"))
+                r = s.log(tid, "ret", op=i, out=out, free=(o["op"] == "del_node" or (o["op"] == "get_graph" and backend == "shared")))
                 calls[tid][i] = {"call": c, "ret": r, "out": out, "res": res}
         except Abort:
             pass
